@@ -119,6 +119,18 @@ class Check(Property):
                     g = rng.choice([gname] + used + ["root"])
                     steps.append({"f": "members", "g": g})
                     ops.append({"op": "gs", "f": "members", "g": g})
+            if rng.random() < 0.6:
+                # the same unit asked before and after every change of the default system: a switch takes effect at once
+                n = rng.choice(["inch", "mile", "pound", "foot", "newton", "gallon"] + [rng.choice(units)])
+                for sname in [None] + rng.sample(SYSTEMS + [None], rng.randint(2, 3)):
+                    if sname is not None or rng.random() < 0.5:
+                        steps.append({"f": "default_system", "s": sname})
+                        o = {"op": "gs", "f": "default_system"}
+                        if sname:
+                            o["s"] = sname
+                        ops.append(o)
+                    steps.append({"f": "base", "u": [[n, "1/1"]]})
+                    ops.append({"op": "gs", "f": "base", "u": [[n, "1/1"]]})
             steps.append({"f": "members", "g": gname})
             ops.append({"op": "gs", "f": "members", "g": gname})
             ops.append({"op": "reset"})
